@@ -251,7 +251,9 @@ theorem createFile_propagatesX (env) : ∀ fuel d path, PropagatesX EntryRollbac
     · refine PropagatesX.bind_ioSafe (findEntry_ioSafe _ _ _ _) (fun e => ?_)
       refine PropagatesX.bind_ioSafe (DirEntry.toDir_ioSafe _ _) (fun sub => ?_)
       exact thenDrop_propagatesX _ (ih _ _)
-    · refine PropagatesX.bind_ioSafe (checkForExistence_ioSafe _ _ _ _) (fun r => ?_)
+    · split
+      · exact (ioSafe_propagates (IoSafe.fail _)).toX
+      refine PropagatesX.bind_ioSafe (checkForExistence_ioSafe _ _ _ _) (fun r => ?_)
       split
       · refine PropagatesX.bind_ioSafe (createSfnEntry_ioSafe _ _ _) (fun sfn => ?_)
         refine PropagatesX.bind (writeEntry_propagatesX _ _ _) (fun e => ?_)
